@@ -67,6 +67,7 @@ pub fn compare_test(got: &TestCase, exp: &ExpectedTest, with_title: bool) -> Res
                 "expectation line {line:?} read as kind {gk} quantifier {q:?}, grammar says {kind} {quant:?}"
             ));
         }
+        crate::c08::expression_as_written(e, line)?;
     }
     if got.exit_code != exp.exit_code {
         return Err(format!("exit code {:?}, written {:?}", got.exit_code, exp.exit_code));
@@ -100,7 +101,8 @@ pub fn line_number_invariant(text: &str, tests: &[TestCase]) -> Result<(), Strin
             return Err(format!("test {i}: line number {n} outside the document"));
         }
         let first = t.shell_expression.split('\n').next().unwrap_or("");
-        if lines[n - 1] != format!("$ {first}") {
+        // (a carriage return at the very end of the text may or may not count as line ending)
+        if lines[n - 1].trim_end_matches('\r') != format!("$ {first}").trim_end_matches('\r') {
             return Err(format!(
                 "test {i}: line {n} is {:?}, not the `$` line of {:?}",
                 lines[n - 1],
@@ -328,9 +330,18 @@ pub fn property() -> Property {
                 }),
                 check: Box::new(check_extended),
             }),
+            Box::new(PropPart::<CliCase> {
+                name: "cli_crlf",
+                rule: "`scrut test -r json` on LF and CR LF twins of generated documents whose tests print here-documents with whitespace-significant lines (trailing blanks, blank-only and empty lines, empty `> ` continuation lines) and expect them verbatim, plus twins with one spoiled expectation: both line-ending variants must give the same verdicts (all pass / exactly the spoiled test fails). Non-trivial: a whitespace-significant line",
+                quick: 150,
+                thorough: 3_000,
+                max_workers: 12,
+                strategy: Box::new(|_| cli_strategy()),
+                check: Box::new(check_cli),
+            }),
             Box::new(PropPart::<MdSoup> {
                 name: "soup",
-                rule: "arbitrary sequences of Markdown-like lines (fences of any length with and without language / config, unbalanced fences, `$` / `>` / `[n]` lines anywhere, front-matter delimiters, one line in six a lead-in followed by random Unicode text): no crash; if accepted, line numbers point at ascending `$ ` lines, not more tests than `$ ` lines, `update` with empty outputs keeps the commands. Non-trivial: >=4 lines",
+                rule: "arbitrary sequences of Markdown-like lines (fences of any length with and without language / config, unbalanced fences, `$` / `>` / `[n]` lines anywhere, front-matter delimiters, one line in six a lead-in followed by random Unicode text): no crash; if accepted, line numbers point at ascending `$ ` lines, not more tests than `$ ` lines. Non-trivial: >=4 lines",
                 quick: 60_000,
                 thorough: 2_000_000,
                 max_workers: 0,
@@ -346,6 +357,21 @@ pub fn property() -> Property {
 pub struct MdSoup {
     pub lines: Vec<String>,
     pub final_newline: bool,
+    /// the text ends in a bare carriage return (what is left of a truncated CR LF document)
+    #[serde(default)]
+    pub final_cr: bool,
+}
+
+impl MdSoup {
+    pub fn text(&self) -> String {
+        let mut text = self.lines.join("\n");
+        if self.final_newline && !text.is_empty() {
+            text.push('\n');
+        } else if self.final_cr {
+            text.push('\r');
+        }
+        text
+    }
 }
 
 const MD_SOUP: &[&str] = &[
@@ -355,7 +381,7 @@ const MD_SOUP: &[&str] = &[
     "( (re)", "\\x (esc)", "# comment", "世", "  ", "aé", "\u{a0}```scrut", "- item", "> quote",
 ];
 
-fn soup_strategy() -> proptest::strategy::BoxedStrategy<MdSoup> {
+pub fn soup_strategy() -> proptest::strategy::BoxedStrategy<MdSoup> {
     use proptest::prelude::*;
     let line = prop_oneof![
         5 => proptest::sample::select(MD_SOUP.to_vec()).prop_map(String::from),
@@ -383,16 +409,14 @@ fn soup_strategy() -> proptest::strategy::BoxedStrategy<MdSoup> {
     (
         proptest::collection::vec(chunk, 0..8).prop_map(|c| c.into_iter().flatten().collect::<Vec<String>>()),
         any::<bool>(),
+        proptest::bool::weighted(0.3),
     )
-        .prop_map(|(lines, final_newline)| MdSoup { lines, final_newline })
+        .prop_map(|(lines, final_newline, final_cr)| MdSoup { lines, final_newline, final_cr })
         .boxed()
 }
 
 fn check_md_soup(c: &MdSoup) -> V {
-    let mut text = c.lines.join("\n");
-    if c.final_newline && !text.is_empty() {
-        text.push('\n');
-    }
+    let text = c.text();
     let parsed = md_parse(&text);
     let accepted = matches!(&parsed, Ok(Ok((_, t))) if !t.is_empty());
     let v = V::pass()
@@ -407,6 +431,91 @@ fn check_md_soup(c: &MdSoup) -> V {
         if tests.len() > dollar_lines {
             return V::fail(format!("{} tests from {} `$ ` lines\ndocument:\n{text}", tests.len(), dollar_lines));
         }
+    }
+    v
+}
+
+// ---------------------------------------------------------------------------
+// documents as the command line reads them: LF and CR LF twins of whitespace-significant tests
+
+#[derive(Clone, Debug, Serialize, Deserialize)]
+pub struct CliCase {
+    /// per test: the lines a here-document prints (and the expectations describe)
+    pub tests: Vec<Vec<String>>,
+    /// (test, line) of the expectation that is changed in the "must fail" twins
+    pub spoil: (u16, u16),
+}
+
+const WS_LINES: &[&str] = &["plain", "trailing blank ", "two blanks  ", "   ", "", "tab\t", " leading", "inner  blanks", "ünï ", "x (glob)"];
+
+fn cli_strategy() -> proptest::strategy::BoxedStrategy<CliCase> {
+    use proptest::prelude::*;
+    (
+        proptest::collection::vec(proptest::collection::vec(proptest::sample::select(WS_LINES.to_vec()).prop_map(String::from), 1..5), 1..4),
+        (any::<u16>(), any::<u16>()),
+    )
+        .prop_map(|(tests, spoil)| CliCase { tests, spoil })
+        .boxed()
+}
+
+fn check_cli(c: &CliCase) -> V {
+    use crate::proc::*;
+    let dir = match CaseDir::new("C06") {
+        Ok(d) => d,
+        Err(e) => inconclusive(&format!("scratch: {e}")),
+    };
+    let st = pick_idx(c.spoil.0, c.tests.len());
+    let sl = pick_idx(c.spoil.1, c.tests[st].len());
+    let render = |spoiled: bool, eol: &str| -> String {
+        let mut lines: Vec<String> = vec!["# whitespace matters".into(), String::new()];
+        for (ti, t) in c.tests.iter().enumerate() {
+            lines.push(format!("## test {ti}"));
+            lines.push(String::new());
+            lines.push("```scrut".into());
+            lines.push("$ cat <<'EOF'".into());
+            for l in t {
+                lines.push(format!("> {l}"));
+            }
+            lines.push("> EOF".into());
+            for (li, l) in t.iter().enumerate() {
+                // output that looks like a modifier is expected through an explicit `(equal)`
+                let e = if l == "x (glob)" { "x (glob) (equal)".to_string() } else { l.clone() };
+                lines.push(if spoiled && ti == st && li == sl { format!("{e}spoiled") } else { e });
+            }
+            lines.push("```".into());
+            lines.push(String::new());
+        }
+        lines.iter().map(|l| format!("{l}{eol}")).collect()
+    };
+    let files = [("ok-lf.md", false, "\n"), ("ok-crlf.md", false, "\r\n"), ("bad-lf.md", true, "\n"), ("bad-crlf.md", true, "\r\n")];
+    let mut expected: Vec<&str> = vec![];
+    let mut args: Vec<String> = vec!["test".into(), "-r".into(), "json".into(), "--no-color".into()];
+    for (name, spoiled, eol) in files {
+        let p = dir.path().join(name);
+        std::fs::write(&p, render(spoiled, eol)).ok();
+        args.push(p.to_string_lossy().to_string());
+        for ti in 0..c.tests.len() {
+            expected.push(if spoiled && ti == st { "malformed_output" } else { "success" });
+        }
+    }
+    let argv: Vec<&str> = args.iter().map(|s| s.as_str()).collect();
+    let run = match run_scrut(&dir, &argv, 60) {
+        Ok(r) => r,
+        Err(e) => inconclusive(&format!("scrut test: {e}")),
+    };
+    let ws = c.tests.iter().flatten().any(|l| l.is_empty() || l.ends_with(' ') || l.ends_with('\t') || l.trim().is_empty());
+    let v = V::pass().nt(ws).label_if(ws, "whitespace_significant_line").label_if(c.tests.iter().flatten().any(|l| l.is_empty()), "empty_continuation_line");
+    let kinds = match json_result_kinds(&run.stdout) {
+        Ok(k) => k,
+        Err(e) => return V::fail(format!("no JSON report (exit {:?}): {e}\nstderr: {}\ndocument (LF twin):\n{}", run.code, truncate(&run.stderr, 400), render(false, "\n"))),
+    };
+    if kinds != expected {
+        return V::fail(format!(
+            "result kinds of [ok-lf, ok-crlf, bad-lf, bad-crlf] are {:?}, expected {:?}: the CR LF twin must read like the LF document\ndocument (LF twin, test {st} line {sl} is spoiled in the bad twins):\n{}",
+            kinds,
+            expected,
+            render(false, "\n")
+        ));
     }
     v
 }
